@@ -7,3 +7,7 @@ open Just.C11
 #print axioms lexer_asserts_hold
 #print axioms main_loop_idle
 #print axioms lexer_no_internal_error
+#print axioms lexeme_slice_valid
+#print axioms unindent_slice_valid
+#print axioms unindent_cuts_blanks_only
+#print axioms sigil_slice_valid
